@@ -104,7 +104,7 @@ fn main() {
                 .collect();
             println!(
                 "{}",
-                serde_json::json!({"total": s.programs.len(), "groups": v, "rule": s.rule, "cfg": s.cfg, "seq_rule": seq::suites(&args[2], args[3] == "thorough").1})
+                serde_json::json!({"total": s.programs.len(), "groups": v, "rule": s.rule, "cfg": s.cfg, "seq_rule": seq::suites(&args[2], args[3] == "thorough").1, "seq_kinds": seq::cfg().kinds})
             );
         }
         "run" => {
@@ -165,7 +165,7 @@ fn main() {
             kanal_verif_rt::ctl::set_knobs(k);
             writeln!(f, "{}", serde_json::json!({"start": 0, "name": format!("sequential shard {shard}")})).unwrap();
             *runner::PANIC_SINK.lock().unwrap() = Some((out.clone(), 0));
-            let st = seq::run(&args[2], args[3] == "thorough", (i, n));
+            let st = seq::run(&args[2], args[3] == "thorough", (i, n), arg(&args, "--after"));
             *runner::PANIC_SINK.lock().unwrap() = None;
             for v in &st.violations {
                 writeln!(f, "{}", serde_json::to_string(v).unwrap()).unwrap();
